@@ -19,10 +19,18 @@ ChkS(tr, ll, what, diag) ==
 \* ---- the content a reader must present for configuration c
 \* the variables: the species of a uamiv file, or the fixed variables of a
 \* meteorological format
-VarsOf(c, names) == IF c.fmt = "uamiv" THEN [s \in 1..Len(names) |-> [name |-> names[s], s |-> s, surf |-> FALSE]]
-                    ELSE FmtVars(c)
+VarsOf(c, names) ==
+  CASE c.fmt = "uamiv" -> [s \in 1..Len(names) |-> [name |-> names[s], s |-> s, surf |-> FALSE, edge |-> 0]]
+    \* lateral boundary: per species the four edges (the driver spells the names EDGE_SPECIES)
+    [] c.fmt = "lateral_boundary" ->
+         [q \in 1..(4 * Len(c.spc)) |-> [name |-> names[q], s |-> ((q - 1) \div 4) + 1, surf |-> FALSE, edge |-> ((q - 1) % 4) + 1]]
+    [] OTHER -> FmtVars(c)
 ExpDataV(c, v) ==
-  IF v.surf
+  IF v.edge > 0
+  THEN LET nc == EdgeCells(c, v.edge) IN
+       [q \in 1..(c.nt * nc * c.nz) |->
+          Token(v.s, ((q - 1) \div (nc * c.nz)) + 1, ((q - 1) % c.nz) + 1, (((q - 1) \div c.nz) % nc) + 1, v.edge)]
+  ELSE IF v.surf
   THEN [q \in 1..(c.nt * c.ny * c.nx) |->
           Token(v.s, ((q - 1) \div (c.nx * c.ny)) + 1, 0, (((q - 1) \div c.nx) % c.ny) + 1, ((q - 1) % c.nx) + 1)]
   ELSE [q \in 1..(c.nt * c.nz * c.ny * c.nx) |->
@@ -31,7 +39,7 @@ ExpDataV(c, v) ==
               k == (((q - 1) \div (c.nx * c.ny)) % c.nz) + 1
               t == ((q - 1) \div (c.nx * c.ny * c.nz)) + 1
           IN Token(v.s, t, k, j, i)]
-PerStep(c, v) == IF v.surf THEN c.ny * c.nx ELSE c.nz * c.ny * c.nx
+PerStep(c, v) == IF v.edge > 0 THEN EdgeCells(c, v.edge) * c.nz ELSE IF v.surf THEN c.ny * c.nx ELSE c.nz * c.ny * c.nx
 \* instant of an IOAPI <YYYYJJJ, HHMMSS> flag
 FlagInst(fl) == NormInst(JulToDay(fl[1]), HmsToSec(fl[2]), 0)
 
@@ -112,6 +120,8 @@ TStep ==
             /\ (o.k = "Steps" =>
                IF HeaderlessFirstStep(c, o.n) /\ o.steps > CompleteSteps(c, o.n)
                THEN TrKnown(tr, "C14_K1_headerless_first_step")
+               ELSE IF c.fmt = "cloud_rain" /\ CloudAliased(c, o.n)
+               THEN TrKnown(tr, "C14_K2_cloud_rain_variant_alias")
                ELSE
                   /\ ChkT(tr, p, "prefix of " \o ToString(o.n) \o " bytes: more steps exposed than are complete",
                           o.steps >= 0 /\ o.steps <= CompleteSteps(c, o.n))
@@ -122,6 +132,15 @@ TStep ==
             \* the outcome is the one the transcribed decision procedure predicts
             /\ (tr.reader = "memmap" /\ c.fmt = "uamiv") =>
                   Chk(tr, p, "prefix of " \o ToString(o.n) \o " bytes: outcome differs from the reader model",
+                      IF o.k = "Steps" THEN o.steps ELSE -1,
+                      IF o.n > HeaderBytes(c) /\ (o.n - HeaderBytes(c)) % BlockBytes(c) = 0
+                      THEN (o.n - HeaderBytes(c)) \div BlockBytes(c) ELSE -1)
+            /\ (tr.reader = "memmap" /\ c.fmt = "cloud_rain") =>
+                  Chk(tr, p, "prefix of " \o ToString(o.n) \o " bytes: outcome differs from the cloud/rain reader model",
+                      IF o.k = "Steps" THEN o.steps ELSE -1,
+                      LET w == CloudOpenF(c, o.n) IN IF w.k = "Steps" THEN w.n ELSE -1)
+            /\ (tr.reader = "memmap" /\ c.fmt = "lateral_boundary") =>
+                  Chk(tr, p, "prefix of " \o ToString(o.n) \o " bytes: outcome differs from the lateral boundary reader model",
                       IF o.k = "Steps" THEN o.steps ELSE -1,
                       IF o.n > HeaderBytes(c) /\ (o.n - HeaderBytes(c)) % BlockBytes(c) = 0
                       THEN (o.n - HeaderBytes(c)) \div BlockBytes(c) ELSE -1)
